@@ -47,6 +47,8 @@ MANIFEST = dict(
 DRIVER_TARGETS = ['SshuttleModel.Code.DgramSys', 'SshuttleModel.Gen.C10', 'SshuttleModel.Gen.C11']
 EXTRA_TARGETS = DRIVER_TARGETS
 ASSUMPTIONS = [
+    "the listener's recvmsg() fake cuts control messages to the offered buffer (MSG_CTRUNC) and the payload to the "
+    "receive size (MSG_TRUNC) as Linux does; it is compared with real loopback sockets on every run",
     "the tunnel delivers frames reliably and in order (C07); one ready descriptor per server round",
     "the clock is quantised to 1/1024 s so that time.time()+30 is exact in floating point",
     "getaddrinfo succeeds on the numeric resolver addresses; socket() itself does not fail",
